@@ -330,6 +330,7 @@ func widthCases() {
 }
 
 func main() {
+	refterm.KeepLog = true
 	r = explore.Start("C07")
 	nProf := 1 << (refterm.NumGatingCaps + 2)
 	if r.Replay != "" {
